@@ -35,6 +35,7 @@ fn main() {
         "diff" => cmd_diff(&args),
         "dump" => cmd_dump(&args),
         "procenum" => cmd_procenum(&args),
+        "stress-dl" => cmd_stress_dl(&args),
         "stress-ids" => cmd_stress_ids(&args),
         "valenum" => {
             let what = args.get(2).map(|s| s.as_str()).unwrap_or("");
@@ -430,6 +431,94 @@ fn cmd_procenum(args: &[String]) {
         }
     }
     println!("{}", serde_json::json!({"seq": seq, "results": results}));
+}
+
+/// Sampling, not exhaustive (DESIGN.md L1): N OS threads (half of them plain threads using blocking_tell, half
+/// async tasks on a multi-thread runtime using tell) fail deliveries to an ended actor at the same time; the
+/// dead-letter counter must have advanced by exactly the number of failures. Sound when it fires; silence proves
+/// nothing about atomicity.
+#[cfg(feature = "f_testutils")]
+fn cmd_stress_dl(args: &[String]) {
+    use rsactor::{Actor, ActorRef};
+    struct Tiny;
+    impl Actor for Tiny {
+        type Args = ();
+        type Error = String;
+        async fn on_start(_: (), _: &ActorRef<Self>) -> Result<Self, String> {
+            Ok(Tiny)
+        }
+    }
+    struct Ping;
+    impl rsactor::Message<Ping> for Tiny {
+        type Reply = ();
+        async fn handle(&mut self, _: Ping, _: &ActorRef<Self>) {}
+    }
+    // no subscriber work at all: the threads must meet in the counter update, not queue up at a log sink
+    msched::TRACE_OFF.store(true, std::sync::atomic::Ordering::SeqCst);
+    let threads: usize = args.get(2).and_then(|s| s.parse().ok()).unwrap_or(8);
+    let rounds: usize = args.get(3).and_then(|s| s.parse().ok()).unwrap_or(20000);
+    let rt = tokio::runtime::Builder::new_multi_thread().worker_threads(4).enable_all().build().unwrap();
+    let dead = rt.block_on(async {
+        let (r, jh) = rsactor::spawn::<Tiny>(());
+        r.stop().await.unwrap();
+        jh.await.unwrap();
+        r
+    });
+    // process CPU time (utime+stime, clock ticks) - tells whether a batch really ran on several cores at once
+    fn cpu_ticks() -> u64 {
+        let st = std::fs::read_to_string("/proc/self/stat").unwrap_or_default();
+        let after = st.rsplit(')').next().unwrap_or("");
+        let f: Vec<&str> = after.split_whitespace().collect();
+        f.get(11).and_then(|x| x.parse::<u64>().ok()).unwrap_or(0) + f.get(12).and_then(|x| x.parse::<u64>().ok()).unwrap_or(0)
+    }
+    let max_batches: usize = args.get(4).and_then(|s| s.parse().ok()).unwrap_or(12);
+    let (mut failures, mut counted, mut batches, mut parallel_batches) = (0u64, 0u64, 0usize, 0usize);
+    while batches < max_batches && parallel_batches < 3 && failures == counted {
+        batches += 1;
+        rsactor::reset_dead_letter_count();
+        let (c0, w0) = (cpu_ticks(), std::time::Instant::now());
+        let barrier = Arc::new(std::sync::Barrier::new(threads));
+        let mut hs = Vec::new();
+        for i in 0..threads {
+            let b = barrier.clone();
+            let r = dead.clone();
+            let h = rt.handle().clone();
+            hs.push(std::thread::spawn(move || {
+                b.wait();
+                let mut failed = 0u64;
+                if i % 2 == 0 {
+                    for _ in 0..rounds {
+                        if r.blocking_tell(Ping, None).is_err() {
+                            failed += 1;
+                        }
+                    }
+                } else {
+                    failed = h.block_on(async {
+                        let mut f = 0u64;
+                        for _ in 0..rounds {
+                            if r.tell(Ping).await.is_err() {
+                                f += 1;
+                            }
+                        }
+                        f
+                    });
+                }
+                failed
+            }));
+        }
+        failures += hs.into_iter().map(|h| h.join().unwrap()).sum::<u64>();
+        counted += rsactor::dead_letter_count();
+        let wall_ticks = w0.elapsed().as_secs_f64() * 100.0;
+        if wall_ticks > 0.0 && (cpu_ticks() - c0) as f64 / wall_ticks > 2.0 {
+            parallel_batches += 1;
+        }
+    }
+    println!("{}", serde_json::json!({"threads": threads, "rounds": rounds, "batches": batches, "batches_that_ran_on_several_cores": parallel_batches, "failures": failures, "counted": counted}));
+}
+
+#[cfg(not(feature = "f_testutils"))]
+fn cmd_stress_dl(_args: &[String]) {
+    println!("{}", serde_json::json!({"error": "needs f_testutils"}));
 }
 
 fn cmd_bthreads(args: &[String]) {
